@@ -36,6 +36,7 @@ type Sess struct {
 	provingLemma *Axiom
 	usedAxioms []string
 	heapOwner map[string]string
+	axiomErrs []string
 }
 
 func NewSess(g *Gen, mode string) *Sess {
